@@ -29,6 +29,7 @@ func c16BuildTree(root string, which int) {
 		mk("dir/sub/deep", "deep", 0o755)
 		os.Symlink("plain", filepath.Join(root, "link-to-file"))
 		os.Symlink("dir", filepath.Join(root, "link-to-dir"))
+		os.Symlink("dir/sub", filepath.Join(root, "link-to-sub")) // its target's parent is not its own directory
 		os.Symlink("nowhere", filepath.Join(root, "dangling"))
 		os.Link(filepath.Join(root, "plain"), filepath.Join(root, "hardlink"))
 		os.Chmod(filepath.Join(root, "dir/sub"), 0o700)
@@ -342,8 +343,123 @@ func c16Scenario(tree int, dotu bool, maxK int, ancestors bool) Scenario {
 	}}
 }
 
+// c16DotDot: '..' is resolved by the host, element by element: after a symbolic link to
+// a directory it leads to the parent of the link's target, not back to where the link
+// is. Every element list over {link-to-sub, link-to-dir, dir, sub, .., inner, deep} of
+// length <= 4 that the host resolves, as one Twalk to a new fid and in place: the qids
+// and the stat of the resulting fid are those of the host's own resolution.
+func c16DotDot(dotu bool) Scenario {
+	name := fmt.Sprintf("dotdot-through-links dotu=%v", dotu)
+	return Scenario{Name: name, Run: func(rc *RunCtx) *Result {
+		res := &Result{Exhaustive: true}
+		base, root := scratchDir("c16")
+		defer os.RemoveAll(base)
+		c16BuildTree(root, 0)
+		seen := map[string]bool{}
+		fail := func(sig, msg string) {
+			if !seen[sig] && len(res.Findings) < 6 {
+				seen[sig] = true
+				res.Findings = append(res.Findings, Finding{Sig: "C16/" + sig, Msg: msg})
+			}
+		}
+		alpha := []string{"link-to-sub", "link-to-dir", "dir", "sub", "..", "inner", "deep"}
+		var lists [][]string
+		var gen func(cur []string)
+		gen = func(cur []string) {
+			if len(cur) > 0 {
+				lists = append(lists, append([]string{}, cur...))
+			}
+			if len(cur) == 4 {
+				return
+			}
+			for _, a := range alpha {
+				gen(append(cur, a))
+			}
+		}
+		gen(nil)
+		rootFi, _ := os.Lstat(root)
+		body := func() {
+			h := newUfsH(root, 8216, dotu)
+			cl := h.Connect()
+			ver := "9P2000"
+			if dotu {
+				ver = "9P2000.u"
+			}
+			cl.Version(8216, ver)
+			un := ""
+			if !dotu {
+				un = go9p.OsUsers.Uid2User(os.Geteuid()).Name()
+			}
+			cl.Rpc(tattach(1, 0, wire.NOFID, un, uint32(os.Geteuid()), dotu))
+			for _, el := range lists {
+				// the host's resolution, element by element (lstat of the last element: a link stays a link)
+				var fis []os.FileInfo
+				path := root
+				ok := true
+				for _, e := range el {
+					path += "/" + e
+					fi, err := os.Lstat(path)
+					if err != nil {
+						ok = false
+						break
+					}
+					// '..' above the export stays at the root (checked by C18): skip lists that leave it
+					if rp, err := filepath.EvalSymlinks(path); err != nil || (rp != root && !strings.HasPrefix(rp, root+"/")) {
+						ok = false
+						break
+					}
+					if e == ".." {
+						// Lstat of "x/.." describes the directory it resolves to
+						fi, _ = os.Stat(path)
+					}
+					fis = append(fis, fi)
+				}
+				if !ok {
+					continue
+				}
+				res.Evals++
+				res.Nontrivial++
+				r := cl.Rpc(twalk(2, 0, 5, el...))
+				if r == nil || r.Type != wire.Rwalk || len(r.Wqid) != len(el) {
+					fail("dotdot/walk-short", fmt.Sprintf("Twalk %v: every element resolves on the host, the reply is %v", el, r))
+					cl.Rpc(&wire.Msg{Type: wire.Tclunk, Tag: 3, Fid: 5})
+					continue
+				}
+				for i, q := range r.Wqid {
+					if q.Path != fis[i].Sys().(*syscall.Stat_t).Ino {
+						fail("dotdot/qid-mismatch", fmt.Sprintf("Twalk %v: qid %d has path %d, the host resolves element %d (%q) to inode %d", el, i, q.Path, i, el[i], fis[i].Sys().(*syscall.Stat_t).Ino))
+						break
+					}
+				}
+				// the new fid designates that object: walking on from it agrees as well
+				last := fis[len(fis)-1]
+				if last.IsDir() {
+					if r2 := cl.Rpc(twalk(4, 5, 6, "..")); r2 != nil && r2.Type == wire.Rwalk && len(r2.Wqid) == 1 {
+						want := rootFi
+						if rp, err := filepath.EvalSymlinks(path); err == nil && rp != root {
+							want, _ = os.Stat(path + "/..")
+						}
+						if want != nil && r2.Wqid[0].Path != want.Sys().(*syscall.Stat_t).Ino {
+							fail("dotdot/parent-of-result", fmt.Sprintf("after Twalk %v, '..' from the new fid has qid path %d, the host's parent of that directory is inode %d", el, r2.Wqid[0].Path, want.Sys().(*syscall.Stat_t).Ino))
+						}
+						cl.Rpc(&wire.Msg{Type: wire.Tclunk, Tag: 3, Fid: 6})
+					}
+				}
+				cl.Rpc(&wire.Msg{Type: wire.Tclunk, Tag: 3, Fid: 5})
+			}
+		}
+		x := vs.Run(nil, body, vs.Options{Horizon: 500000000})
+		if len(x.Panics) > 0 {
+			fail("panic/"+x.Panics[0].Frame, "panic: "+x.Panics[0].Value)
+		}
+		res.Samples = append(res.Samples, fmt.Sprintf("%d element lists of length <= 4 over %v, those the host resolves inside the export walked as one Twalk", len(lists), alpha))
+		return res
+	}}
+}
+
 func c16Scenarios(tier string) []Scenario {
 	var out []Scenario
+	out = append(out, c16DotDot(false), c16DotDot(true))
 	for t := 0; t < 4; t++ {
 		for _, dotu := range []bool{false, true} {
 			k := 1
@@ -359,7 +475,7 @@ func c16Scenarios(tier string) []Scenario {
 func init() {
 	register(&Property{ID: "C16", Level: "exploration",
 		Technique: "bounded-exhaustive enumeration of walks and stats over constructed trees against the real Ufs, compared with os.Lstat",
-		Rule:      "4 constructed trees (files, directories, symlinks to file/dir/dangling, hard links, names with spaces, dots, non-ASCII and non-UTF-8 bytes, 255-byte names, a 40-level chain, modes 0000-0777, a >4 GiB sparse file); for every node and k in 0..1 (thorough 2) missing trailing elements: the walk from the root (and from every ancestor) as one Twalk (<= 16 elements) to a new fid and in place, Tstat of both fids afterwards and again once the new fid is open, stat of every node in both dialects, Clnt.FStat of every path and of a missing child. non-trivial = walks/stats compared",
+		Rule:      "4 constructed trees (files, directories, symlinks to file/dir/dangling, hard links, names with spaces, dots, non-ASCII and non-UTF-8 bytes, 255-byte names, a 40-level chain, modes 0000-0777, a >4 GiB sparse file); for every node and k in 0..1 (thorough 2) missing trailing elements: the walk from the root (and from every ancestor) as one Twalk (<= 16 elements) to a new fid and in place, Tstat of both fids afterwards and again once the new fid is open, stat of every node in both dialects, every element list of length <= 4 with '..' behind symbolic links to directories compared with the host's own resolution, Clnt.FStat of every path and of a missing child. non-trivial = walks/stats compared",
 		Assumptions: []string{"the host file system and os.Lstat are the reference; run as the sandbox user (root), permission denials are not exercised", "random trees of the quantifier are sampling and not claimed"},
 		Scenarios:   c16Scenarios, QuickS: 100, ThoroughS: 600})
 }
